@@ -315,8 +315,8 @@ def run_job(job, keys, idx):
         modes.append(("right", pw))
         wrong = [("wrong1", pw[:-1] + bytes([pw[-1] ^ 1])), ("wrong2", pw + b"x")]
         if job.get("more_wrong"):
-            wrong += [("wrong3", pw[:-1] if len(pw) > 1 else b"y"), ("wrong4", pw.swapcase() if pw.swapcase() != pw else pw[::-1] + b"z"), ("wrong5", bytes(len(pw)))]
-        modes += wrong
+            wrong += [("wrong3", pw[:-1] if len(pw) > 1 else pw + pw), ("wrong4", pw.swapcase() if pw.swapcase() != pw else pw[::-1] + b"z"), ("wrong5", b"\x01" * len(pw))]
+        modes += [(m, w) for m, w in wrong if w != pw and w]
     for mode, pw in modes:
         rec = {"mode": mode, "pw": list(pw) if pw else [], "eq": "", "ne": "", "priv": False, "comps": {}, "curve": ""}
         try:
